@@ -363,6 +363,9 @@ func (d *V2) Exec(cmd *Cmd) (o Outcome) {
 		if cmd.Native == "activate" {
 			d.cl.ActivateNativeInterpreter()
 		}
+		if cmd.Native == "matcher-panic" {
+			d.cl.GetNativeInterpreter().AddMatcher(cmd.T, interpreter.ExpressionTypeFilter, FilterText(cmd), func(_, _ map[string]*mtypes.Item) bool { panic("harness matcher panics on purpose") })
+		}
 		if cmd.Native == "matcher" {
 			verdict := cmd.Verdict
 			d.cl.GetNativeInterpreter().AddMatcher(cmd.T, interpreter.ExpressionTypeFilter, FilterText(cmd), func(_, _ map[string]*mtypes.Item) bool { return verdict })
